@@ -37,12 +37,12 @@ func c10Orig(w float64) glyph.ID { return glyph.ID(int(w) - 500) }
 
 // component graphs over 6 glyphs: glyph -> components (nil = simple, empty = blank glyph)
 var c10Graphs = []map[int][]int{
-	{},                                   // no composites
-	{3: {1}},                             // one composite
-	{3: {1, 2}, 4: {3}},                  // nested
-	{2: {5}, 4: {2, 1}},                  // forward reference, nested through a forward reference
-	{5: {4}, 4: {3}, 3: {2}, 2: {1}},     // chain
-	{3: {1, 1}, 5: {3, 4}},               // repeated component
+	{},                               // no composites
+	{3: {1}},                         // one composite
+	{3: {1, 2}, 4: {3}},              // nested
+	{2: {5}, 4: {2, 1}},              // forward reference, nested through a forward reference
+	{5: {4}, 4: {3}, 3: {2}, 2: {1}}, // chain
+	{3: {1, 1}, 5: {3, 4}},           // repeated component
 }
 
 func c10Font(c *explore.Ctx) (*sfnt.Font, string) {
